@@ -401,6 +401,21 @@ func MonitorC08(cs *ClusterScenario, results []*Result) []vh.Violation {
 			all = append(all, sent{r.Instance, rec.T, rec.GKey, rec.I, fmt.Sprint(f), fmt.Sprint(rs)})
 		}
 	}
+	// log writes that emptied the firing set of (group, integration): a moment with no firing alert starts a new
+	// notification cycle (C04), also when nothing was SENT for it (send_resolved off: logged only)
+	type cleared struct {
+		T    int64
+		gkey string
+		i    int
+	}
+	var clears []cleared
+	for _, r := range results {
+		for _, rec := range r.Recs {
+			if rec.Kind == "log" && len(rec.Firing) == 0 {
+				clears = append(clears, cleared{rec.T, rec.GKey, rec.I})
+			}
+		}
+	}
 	// (a) at least one: an alert that fires from its first submission to the end of the run, for longer than the
 	// batching bound plus the whole cluster's wait, has been sent as firing to every integration by SOME instance
 	firstFiring := map[int]int64{}
@@ -491,6 +506,17 @@ func MonitorC08(cs *ClusterScenario, results []*Result) []vh.Violation {
 						if m.gkey == a.gkey && m.i == a.i && m.T >= lo && m.T <= hi && (m.firing != a.firing || m.resolved != a.resolved) {
 							superseded = true
 						}
+					}
+					// between the two sends the group had a moment without any firing alert (recorded by a log write with
+					// an empty firing set, by any instance): the later send opens a new cycle, it is not a repetition
+					newCycle := false
+					for _, c := range clears {
+						if c.gkey == a.gkey && c.i == a.i && c.T > lo && c.T <= hi && a.firing != "[]" {
+							newCycle = true
+						}
+					}
+					if newCycle && !superseded {
+						continue
 					}
 					key := "duplicate-notification-when-healthy"
 					if superseded {
